@@ -35,7 +35,7 @@ func raceKey(blk string) (key string, frames []string) {
 var c20Setup = probe.Op{Op: "overridesvc", Name: "lateCtx", Ctor: "fixt/pa.New", Scope: "contextual", Deps: []probe.DepSpec{{Dep: "value", T: "string", V: "late"}}}
 
 func checkC20(c *Ctx) error {
-	confN, G, reps, rounds := c.Pick(24, 160), c.Pick(32, 64), c.Pick(12, 30), c.Pick(3, 8)
+	confN, G, reps, rounds := c.Pick(32, 160), c.Pick(32, 64), c.Pick(12, 30), c.Pick(3, 8)
 	c.Rule = fmt.Sprintf("%d seeded configurations from the behavioural generator (race-free user code: no service is a package-level variable) x %d goroutines x %d operations each x %d repetitions with different seeds, mixed Get / GetParam / GetTaggedBy / getter / GetInContext on G/4 shared contexts, released from one barrier in seeded random order, fixtures in stress mode (Gosched + 0-200us sleeps inside constructors, methods, decorators and parameter functions), probe built with -race. Oracles: zero race-detector reports; per-symbol invocation counters equal to those of the reference container executing the same multiset of operations sequentially (so every shared service is constructed and every parameter evaluated at most once); one serial per shared service; contextual serials never shared between two attached contexts. distinct = distinct (configuration, round); non-trivial = >=2 goroutines touched the same shared or contextual service", confN, G, reps, rounds)
 	c.Assumptions = []string{"only schedules that occurred are judged", "writers (Override*, HotSwap) are outside the property and are not driven", "counter equality with a sequential execution is implied by at-most-once construction plus deterministic per-request construction of non-shared services"}
 	lab, err := probe.NewLab(c.W)
